@@ -49,7 +49,7 @@ func genC09(t *rapid.T) c09Case {
 		li := rapid.IntRange(0, c.NLocs-1).Draw(t, l+".loc")
 		loc := locs[li]
 		k := rapid.IntRange(1, 2).Draw(t, l+".n")
-		switch rapid.SampledFrom([]string{"parents", "parents", "parents", "fact", "fact", "fact", "remFact", "rule", "rule", "remRule", "disable", "enable", "dupFact"}).Draw(t, l+".kind") {
+		switch rapid.SampledFrom([]string{"parents", "parents", "parents", "fact", "fact", "fact", "remFact", "rule", "rule", "remRule", "disable", "enable", "dupFact", "bulk"}).Draw(t, l+".kind") {
 		case "parents":
 			var ps []string
 			np := rapid.SampledFrom([]int{0, 1, 1, 1, 2}).Draw(t, l+".np")
@@ -77,6 +77,10 @@ func genC09(t *rapid.T) c09Case {
 			c.Ops = append(c.Ops, op{K: "setParents", Loc: loc, L: ps})
 		case "fact":
 			c.Ops = append(c.Ops, op{K: "addFact", Loc: loc, Id: fmt.Sprintf("%s_f%d", loc, k), Doc: M{"at": loc, "v": rapid.SampledFrom([]string{"x", "y"}).Draw(t, l+".v")}})
+		case "bulk":
+			// many facts at once: inherited results that outgrow the
+			// buffers their merging starts with
+			c.Ops = append(c.Ops, op{K: "bulk", Loc: loc, N: int64(rapid.SampledFrom([]int{20, 33, 45, 64, 70}).Draw(t, l+".count"))})
 		case "dupFact":
 			// deliberately not qualified by location
 			c.Ops = append(c.Ops, op{K: "addFact", Loc: loc, Id: "shared", Doc: M{"at": loc, "v": "shared"}})
@@ -162,6 +166,17 @@ func runC09(c c09Case) *vlib.Outcome {
 			if r := w.addFact(x.Loc, x.Id, x.Doc); r.Err != nil {
 				o.Fail("ADD_ERROR", "%s: %v", when, r.Err)
 			}
+		case "bulk":
+			if x.N < 1 || x.N > 200 {
+				continue
+			}
+			for k := int64(0); k < x.N; k++ {
+				if r := w.addFact(x.Loc, fmt.Sprintf("%s_b%d", x.Loc, k), M{"at": x.Loc, "v": "bulk"}); r.Err != nil {
+					o.Fail("ADD_ERROR", "%s: %v", when, r.Err)
+					break
+				}
+			}
+			o.Label("bulk-facts")
 		case "remFact":
 			// (the System installs the cron hooks, with which removing an
 			// id that is not there reports not-found)
